@@ -45,13 +45,15 @@ type pgpAlt struct {
 }
 
 type pgpIDRef struct {
-	name string
-	alts []pgpAlt
+	name     string
+	alts     []pgpAlt
+	optional bool // a revoked identity: may be left out of the description
 }
 
 type pgpSubRef struct {
-	key  *pkey
-	alts []pgpAlt
+	key      *pkey
+	alts     []pgpAlt
+	optional bool // a revoked subkey
 }
 
 type entBuilder struct {
@@ -196,12 +198,20 @@ func (b *entBuilder) ref(kind int) Sx {
 	ids := SL{}
 	for _, id := range b.ids {
 		if len(id.alts) > 0 {
-			ids = append(ids, SL{S(id.name), sxAlts(id.alts)})
+			e := SL{S(id.name), sxAlts(id.alts)}
+			if id.optional {
+				e = append(e, I(1))
+			}
+			ids = append(ids, e)
 		}
 	}
 	subs := SL{}
 	for _, s := range b.subs {
-		subs = append(subs, append(keyRef(s.key), sxAlts(s.alts)))
+		e := append(keyRef(s.key), sxAlts(s.alts))
+		if s.optional {
+			e = append(e, I(1))
+		}
+		subs = append(subs, e)
 	}
 	return SL{I(kind), keyRef(b.primary), ids, subs}
 }
@@ -895,6 +905,8 @@ func genC12(c *Ctx) {
 	// ---- streams beyond the plain transferable key: packets to skip, partial / indeterminate lengths,
 	//      trailing octets, user attributes, v3 material, message packets, unknown subpackets ----
 	pgpBeyond(c, "C12")
+	// ---- several self-signatures per identity / subkey, revoked identities and subkeys, direct-key signatures ----
+	pgpSelfSigs(c, "C12")
 	// ---- malformed stream derived from valid keys (no reference: the model must agree, nothing may panic) ----
 	pgpMalformed(c)
 	// ---- keys produced by GnuPG, GnuPG's own listing as the reference ----
@@ -1367,6 +1379,7 @@ func genC11(c *Ctx) {
 	// corpus: identities whose user ID has white space at the ends, is empty, very long or not UTF-8
 	oddUserIDKeys(c, "C11")
 	pgpBeyond(c, "C11")
+	pgpSelfSigs(c, "C11")
 	keys := c11Keys(c)
 	sample := 2000
 	for ki, k := range keys {
@@ -2023,6 +2036,228 @@ func pgpBeyond(c *Ctx, prop string) {
 				b.subkey(sk, bo, false, false, nil)
 				emit("subpacket-on-binding:"+sub.tag, b, b.stream, expStrict)
 			}
+		}
+	}
+}
+
+// ---------- several self-signatures, revocations, direct-key signatures (C12 and C11) ----------
+
+// RFC 4880 5.2.3.3: "An implementation that encounters multiple self-signatures on the same object
+// may resolve the ambiguity in any way it sees fit, but it is RECOMMENDED that priority be given
+// to the most recent self-signature": every valid self-signature is an acceptable source of the
+// displayed usage / dates, but all three attributes must come from ONE of them.
+// Revocation signatures (0x28, 0x30) are not self-signatures in the sense of 5.2.3.3: they carry
+// neither key flags nor a key expiration time; a revoked identity / subkey may be left out, and
+// when it is listed its usage and expiry are those of a certification / binding signature.
+func pgpSelfSigs(c *Ctx, prop string) {
+	plain := armorStyle{}
+	emit := func(tag string, b *entBuilder, kind int) {
+		var extra Sx = b.ref(kind)
+		if prop == "C11" {
+			extra = SL{I(0), b.ref(kind)}
+		}
+		pgpInspect(c, prop, "selfsigs-"+tag, b.secret, b.stream, extra, plain)
+	}
+	reason := func(code byte, text string) [][]byte {
+		return [][]byte{pgpw_subpacket(29, cat([]byte{code}, []byte(text)), false)}
+	}
+	perms3 := [][3]int{{0, 1, 2}, {0, 2, 1}, {1, 0, 2}, {1, 2, 0}, {2, 0, 1}, {2, 1, 0}}
+	for pi, mkp := range []func(r *Rng) *pkey{
+		func(r *Rng) *pkey { return newEdDSAKey(1500000000, r) },
+		func(r *Rng) *pkey { return newECKey(oidP256, 19, 1500000000, r, nil) },
+		func(r *Rng) *pkey { return newRSAKey(0, 1, 1500000000) },
+	} {
+		r := NewRng(c.R.U64())
+		p := mkp(r)
+		tag := func(s string) string { return s + ":" + strconv.Itoa(pi) }
+		newB := func() *entBuilder { return newEnt(p, false, r, func() int { return []int{0, 3, 1}[pi] }) }
+		lean := func(o sigOpts) sigOpts { o.prefs, o.issuerFpr = false, nil; return o }
+		good := func(b *entBuilder) {
+			id := b.uid("good <good@example.org>")
+			b.cert(id, nil, lean(selfSigOpts(p, 8, 1500000000, 3, nil)), true)
+		}
+		cv := func() *pkey { return newCv25519Key(1500000500, r, kdfSHA256AES128) }
+
+		// 1. three self-signatures on one identity, every order; equal creation times
+		three := []sigOpts{
+			lean(selfSigOpts(p, 8, 1500000000, 0x03, u32p(86400))),
+			lean(selfSigOpts(p, 8, 1550000000, 0x23, u32p(86400*3650))),
+			lean(selfSigOpts(p, 10, 1600000000, 0x01, nil)),
+		}
+		for _, pm := range perms3 {
+			if pi > 0 && pm != perms3[pi] && pm != perms3[5-pi] {
+				continue
+			}
+			b := newB()
+			id := b.uid("three self-signatures")
+			var alts []pgpAlt
+			for _, k := range pm {
+				b.cert(id, nil, three[k], true)
+				alts = append(alts, altOf(three[k]))
+			}
+			b.ids[id].alts = alts
+			b.subkey(cv(), bindingOpts(p, 8, 1500000600, 0x0c, nil), false, false, nil)
+			emit(tag("three-self-signatures"), b, 1)
+		}
+		{
+			b := newB()
+			id := b.uid("same creation time")
+			o1, o2 := lean(selfSigOpts(p, 8, 1500000000, 0x03, u32p(86400))), lean(selfSigOpts(p, 8, 1500000000, 0x21, nil))
+			b.cert(id, nil, o1, true)
+			b.cert(id, nil, o2, true)
+			b.ids[id].alts = []pgpAlt{altOf(o1), altOf(o2)}
+			emit(tag("self-signatures-same-time"), b, 1)
+			// an expired self-signature (signature expiration time, 5.2.3.10) beside a current one
+			b = newB()
+			id = b.uid("expired self-signature")
+			o1 = lean(selfSigOpts(p, 8, 1500000000, 0x03, u32p(86400*30)))
+			o1.extraHashed = [][]byte{pgpw_subpacket(3, u32(3600), false)}
+			o2 = lean(selfSigOpts(p, 8, 1400000000, 0x01, nil))
+			b.cert(id, nil, o2, true)
+			b.cert(id, nil, o1, true)
+			b.ids[id].alts = []pgpAlt{altOf(o1), altOf(o2)}
+			emit(tag("expired-self-signature"), b, 1)
+		}
+		// 2. primary user ID flag (5.2.3.19) on the second of three identities, on all, on none
+		for v := 0; v < 3; v++ {
+			b := newB()
+			for i, n := range []string{"zed <z@example.org>", "alice <a@example.org>", "mid <m@example.org>"} {
+				id := b.uid(n)
+				o := lean(selfSigOpts(p, 8, 1500000000+uint32(i), []byte{3, 0x21, 0x0f}[i], []*uint32{nil, u32p(86400), u32p(0)}[i]))
+				o.primaryUID = v == 1 || (v == 0 && i == 1)
+				b.cert(id, nil, o, true)
+			}
+			emit(tag("primary-user-id-flag"), b, 1)
+		}
+		// 3. revoked identities
+		for v := 0; v < 5; v++ {
+			b := newB()
+			good(b)
+			id := b.uid("revoked <revoked@example.org>")
+			co := lean(selfSigOpts(p, 8, 1500000100, 0x23, u32p(86400*365)))
+			ro := sigOpts{sigType: 0x30, hid: 8, created: 1500000900, issuer: u64p(p.keyID()), extraHashed: reason(32, "no longer valid")}
+			kind := 1
+			switch v {
+			case 0: // certification, then its revocation
+				b.cert(id, nil, co, true)
+				b.cert(id, nil, ro, false)
+				b.ids[id].optional = true
+			case 1: // revocation first
+				b.cert(id, nil, ro, false)
+				b.cert(id, nil, co, true)
+				b.ids[id].optional = true
+			case 2: // revoked and certified again later
+				b.cert(id, nil, co, true)
+				b.cert(id, nil, ro, false)
+				co2 := lean(selfSigOpts(p, 8, 1500001000, 0x03, nil))
+				b.cert(id, nil, co2, true)
+				b.ids[id].alts = []pgpAlt{altOf(co), altOf(co2)}
+				b.ids[id].optional = true
+			case 3: // a "revocation" that another key made: the identity stays
+				other := newEdDSAKey(1400000000, r)
+				b.cert(id, nil, co, true)
+				b.cert(id, other, ro, false)
+			case 4: // only a revocation, no certification: never listed
+				b.cert(id, nil, ro, false)
+			}
+			b.subkey(cv(), bindingOpts(p, 8, 1500000600, 0x0c, nil), false, false, nil)
+			emit(tag("revoked-identity-"+strconv.Itoa(v)), b, kind)
+		}
+		// 4. revoked subkeys
+		for v := 0; v < 6; v++ {
+			b := newB()
+			good(b)
+			sk := cv()
+			bo := bindingOpts(p, 8, 1500000600, 0x0c, u32p(86400*365*3))
+			bo.issuerFpr = nil
+			ro := sigOpts{sigType: 0x28, hid: 8, created: 1500000900, issuer: u64p(p.keyID()), extraHashed: reason(2, "compromised")}
+			kind := 1
+			switch v {
+			case 0: // binding, then revocation
+				i := b.subkey(sk, bo, false, false, nil)
+				b.binding(i, ro, false, false, nil, false)
+				b.subs[i].optional = true
+			case 1: // revocation, then binding
+				b.subs = append(b.subs, pgpSubRef{key: sk, optional: true})
+				b.keyPacket(sk, true, 0)
+				b.binding(0, ro, false, false, nil, false)
+				b.binding(0, bo, false, false, nil, true)
+			case 2: // bound, revoked, bound again
+				i := b.subkey(sk, bo, false, false, nil)
+				b.binding(i, ro, false, false, nil, false)
+				bo2 := bindingOpts(p, 8, 1500001000, 0x04, nil)
+				bo2.issuerFpr = nil
+				b.binding(i, bo2, false, false, nil, true)
+				b.subs[i].alts = []pgpAlt{altOf(bo), altOf(bo2)}
+				b.subs[i].optional = true
+			case 3: // only a revocation: nothing but "revoked" is stated about the subkey
+				b.subs = append(b.subs, pgpSubRef{key: sk, optional: true, alts: []pgpAlt{{flags: 0, created: 1500000900, life: -1}}})
+				b.keyPacket(sk, true, 0)
+				b.binding(0, ro, false, false, nil, false)
+			case 4: // a "revocation" made by another key: a reader may reject the key, it must not drop or alter the subkey
+				other := newEdDSAKey(1400000000, r)
+				i := b.subkey(sk, bo, false, false, nil)
+				body, _ := makeSig(other, cat(p.hashInput(), sk.hashInput()), ro, r)
+				b.packet(2, body)
+				_ = i
+				kind = 4
+			case 5: // a revoked signing subkey with its cross-signature, and a second, live subkey
+				ssk := newEdDSAKey(1500000500, r)
+				so := bindingOpts(p, 8, 1500000600, 0x02, u32p(86400*30))
+				so.issuerFpr = nil
+				i := b.subkey(ssk, so, true, true, nil)
+				b.binding(i, ro, false, false, nil, false)
+				b.subs[i].optional = true
+				b.subkey(sk, bo, false, false, nil)
+			}
+			emit(tag("revoked-subkey-"+strconv.Itoa(v)), b, kind)
+		}
+		// 5. three binding signatures on one subkey, every order
+		for _, pm := range perms3 {
+			if pi > 0 && pm != perms3[pi] && pm != perms3[5-pi] {
+				continue
+			}
+			b := newB()
+			good(b)
+			sk := cv()
+			bos := []sigOpts{bindingOpts(p, 8, 1500000600, 0x0c, u32p(86400)), bindingOpts(p, 8, 1550000000, 0x04, u32p(86400*3650)), bindingOpts(p, 10, 1600000000, 0x08, nil)}
+			b.subs = append(b.subs, pgpSubRef{key: sk})
+			b.keyPacket(sk, true, 0)
+			var alts []pgpAlt
+			for _, k := range pm {
+				bos[k].issuerFpr = nil
+				b.binding(0, bos[k], false, false, nil, false)
+				alts = append(alts, altOf(bos[k]))
+			}
+			b.subs[0].alts = alts
+			emit(tag("three-binding-signatures"), b, 1)
+		}
+		// 6. direct-key signatures (0x1F): genuine and forged, with usage and lifetime of their own;
+		//    a key revocation (0x20) with a reason
+		for v := 0; v < 4; v++ {
+			b := newB()
+			other := newEdDSAKey(1400000000, r)
+			do := sigOpts{sigType: 0x1f, hid: 8, created: 1500000050, issuer: u64p(p.keyID()), flags: []byte{0x2c}, keyLife: u32p(86400 * 7)}
+			signer := p
+			if v == 1 {
+				signer = other
+			}
+			if v == 3 {
+				do = sigOpts{sigType: 0x20, hid: 8, created: 1500000950, issuer: u64p(p.keyID()), extraHashed: reason(3, "retired")}
+			}
+			body, _ := makeSig(signer, p.hashInput(), do, r)
+			if v != 2 {
+				b.packet(2, body)
+			}
+			id := b.uid("direct <direct@example.org>")
+			b.cert(id, nil, lean(selfSigOpts(p, 8, 1500000100, 0x03, u32p(86400*365))), true)
+			if v == 2 { // between the identities
+				b.packet(2, body)
+			}
+			id = b.uid("second <second@example.org>")
+			b.cert(id, nil, lean(selfSigOpts(p, 8, 1500000200, 0x01, nil)), true)
+			b.subkey(cv(), bindingOpts(p, 8, 1500000600, 0x0c, nil), false, false, nil)
+			emit(tag([]string{"direct-key-signature", "direct-key-signature-forged", "direct-key-signature-between-identities", "key-revocation-with-reason"}[v]), b, 1)
 		}
 	}
 }
